@@ -148,6 +148,7 @@ type (
 	}
 	SIte    struct{ C, A, B SExpr }
 	STypeOf struct{ T *STypeExpr } // type[T] : the Type constant
+	SHeap   struct{ T *STypeExpr } // heap[T] : the heap array of leaf type T in the current state
 	SAddr   struct{ X SExpr }      // &lvalue
 )
 
@@ -158,6 +159,7 @@ type SParam struct {
 
 // STypeExpr: textual type: optional stars / [] prefixes and a (qualified) name
 type STypeExpr struct {
+	Raw   string // raw SMT sort text
 	Ptr   int
 	Slice bool // []Elem (Ptr applies to elem when Slice)
 	Pkg   string
@@ -168,6 +170,9 @@ type STypeExpr struct {
 func (t *STypeExpr) String() string {
 	if t == nil {
 		return "<nil>"
+	}
+	if t.Raw != "" {
+		return t.Raw
 	}
 	if t.Slice {
 		return "[]" + t.Elem.String()
@@ -211,6 +216,7 @@ func (e SQuant) String() string {
 }
 func (e SIte) String() string    { return "(" + e.C.String() + " ? " + e.A.String() + " : " + e.B.String() + ")" }
 func (e STypeOf) String() string { return "type[" + e.T.String() + "]" }
+func (e SHeap) String() string   { return "heap[" + e.T.String() + "]" }
 func (e SAddr) String() string   { return "&" + e.X.String() }
 
 type parser struct {
@@ -306,6 +312,31 @@ func (p *parser) quant() SExpr {
 
 func (p *parser) typeExpr() *STypeExpr {
 	t := &STypeExpr{}
+	if p.isOp("(") {
+		// raw SMT sort, e.g. (Array Loc Iface)
+		depth := 0
+		var parts []string
+		for {
+			tk := p.next()
+			if tk.k == tEOF {
+				p.fail("unbalanced sort")
+			}
+			parts = append(parts, tk.s)
+			if tk.k == tOp && tk.s == "(" {
+				depth++
+			} else if tk.k == tOp && tk.s == ")" {
+				depth--
+				if depth == 0 {
+					break
+				}
+			}
+		}
+		raw := strings.Join(parts, " ")
+		raw = strings.ReplaceAll(raw, "( ", "(")
+		raw = strings.ReplaceAll(raw, " )", ")")
+		t.Raw = raw
+		return t
+	}
 	if p.isOp("[]") {
 		p.next()
 		t.Slice = true
@@ -528,6 +559,13 @@ func (p *parser) primary() SExpr {
 				ty := p.typeExpr()
 				p.expectOp("]")
 				return STypeOf{ty}
+			}
+		case "heap":
+			if p.isOp("[") {
+				p.next()
+				ty := p.typeExpr()
+				p.expectOp("]")
+				return SHeap{ty}
 			}
 		}
 		if p.isOp("(") {
